@@ -84,7 +84,14 @@ func (s *Server) HandlePutService(w http.ResponseWriter, r *http.Request) {
 	service.Metadata = *metadata
 
 	previous := Service{}
-	hadPrevious := s.Store.Get(fmt.Sprintf("/services/%s", r.PathValue("id")), &previous) == nil
+	hadPrevious := true
+	if err := s.Store.Get(fmt.Sprintf("/services/%s", r.PathValue("id")), &previous); err == ErrNotFound {
+		hadPrevious = false
+	} else if err != nil {
+		s.logger.Printf("ERROR: %s", err)
+		http.Error(w, http.StatusText(http.StatusInternalServerError), http.StatusInternalServerError)
+		return
+	}
 
 	err = s.Store.Put(fmt.Sprintf("/services/%s", r.PathValue("id")), &service)
 	if err != nil {
